@@ -130,6 +130,35 @@ def levelPaths (dist : Nat → Dist) (k E : Nat) : Nat → List (List Nat)
 def treeRejected (k E nb ntimes : Nat) : Bool :=
   decide (ntimes < nb + 1) || (k == 0 && decide (0 < nb) && decide (0 < E))
 
+/-- the branch dictionary of one run: every branch the code creates, level by level, with its members -/
+def treeBranches (dist : Nat → Dist) (k E nb : Nat) : List (List Nat × List Nat) :=
+  (List.range (nb + 1)).flatMap (fun L =>
+    (levelPaths dist k E L).map (fun p => (p, membersOf dist k E p)))
+
+/-- the data of one run that the tree depends on (the distance tables come from the forecasts) -/
+structure TreeRun where
+  dist : Nat → Dist
+  k : Nat
+  E : Nat
+  nb : Nat
+
+/-- `discretize_controls` starts from a fresh dictionary (`branches = {}`): the result of a run does
+    not depend on what an earlier run on the same object left behind -/
+def treeStep (_old : List (List Nat × List Nat)) (r : TreeRun) : List (List Nat × List Nat) :=
+  treeBranches r.dist r.k r.E r.nb
+
+/-- a variant that fills the dictionary of the previous run in place: keys that the new run does not
+    write survive -/
+def treeStepInPlace (old : List (List Nat × List Nat)) (r : TreeRun) : List (List Nat × List Nat) :=
+  let new := treeBranches r.dist r.k r.E r.nb
+  new ++ old.filter (fun e => !(new.any (fun n => n.1 == e.1)))
+
+/-- the dictionaries after each of a sequence of runs on one object -/
+def treeRuns (step : List (List Nat × List Nat) → TreeRun → List (List Nat × List Nat)) :
+    List (List Nat × List Nat) → List TreeRun → List (List (List Nat × List Nat))
+  | _, [] => []
+  | st, r :: rest => step st r :: treeRuns step (step st r) rest
+
 /-! ## time segments of the branching levels -/
 
 /-- lower end of segment `L`: `BT[L]` with `BT = [t0] ++ branching_times ++ [inf]` -/
